@@ -21,12 +21,30 @@ SENT = "\x1e"
 def case_strategy():
     return st.fixed_dictionaries(
         {
-            "roots": gen.layout_forest(newlines=True, meta=True, blank=("", "", " ", "\t", "\xa0", "\n")).map(lambda f: gen.number([gen.make_valid(n) for n in f])),
+            "roots": st.builds(
+                lambda f, bulk: gen.number(_bulk([gen.make_valid(n) for n in f], bulk)),
+                gen.layout_forest(newlines=True, meta=True, blank=("", "", " ", "\t", "\xa0", "\n")),
+                st.sampled_from([0] * 40 + [501, 1030]),
+            ),
+            # history: the very objects were rendered earlier as children of an inline element (a nesting for which no
+            # layout is promised); rendering them afterwards on their own is inside the statement again
+            "prior_inline_parent": st.sampled_from([False, False, True]),
             "indent": st.one_of(st.integers(0, 8), st.integers(0, 8), st.integers(9, 30)),
             "eol": st.sampled_from(EOLS),
             "share": st.one_of(st.just(0), st.integers(1, 10**6)),
         }
     )
+
+
+def _bulk(roots, n):
+    """a long child list: the first tag's (childless / leaf) children repeated until there are more than n"""
+    if not n:
+        return roots
+    for i, r in enumerate(roots):
+        if r["k"] == "tag" and r["kids"]:
+            kids = [k for k in r["kids"] if k["k"] != "tag" or not k["kids"]][:3] or [{"k": "text", "s": "x"}]
+            return roots[:i] + [dict(r, kids=kids * (n // len(kids) + 1))] + roots[i + 1 :]
+    return roots
 
 
 def _stats(n):
@@ -51,6 +69,10 @@ def body_model(case, note):
         roots = gen.share_some(roots, case["share"])  # some children occur again as the very same object
     memo: dict = {}
     objs = [build(r, memo) for r in roots]
+    if case.get("prior_inline_parent"):
+        for o in objs:
+            h.Tag("span", "lead", o, _add_ws=False).get_html_string(indent, eol)
+            h.Tag("a", h.Tag("b", o, _add_ws=False), "tail", _add_ws=False).get_html_string()
     tl = h.TagList(*objs)
     got = tl.get_html_string(indent, eol)
     exp = L.render_list(roots, indent, eol)
@@ -70,7 +92,8 @@ def body_model(case, note):
         nt = nt or _stats(r)
     kinds = {r["k"] for r in roots}
     blank = any(_has_blank(r) for r in roots)
-    note(nt, "blank-leaf" if blank else "", "same-object-twice" if shared and memo else "", "list-root-mixed" if len(roots) >= 2 and "tag" in kinds and len(kinds) > 1 else "", "eol:" + repr(eol), "indent>0" if indent else "")
+    note(nt, "blank-leaf" if blank else "", "same-object-twice" if shared and memo else "", "list-root-mixed" if len(roots) >= 2 and "tag" in kinds and len(kinds) > 1 else "", "eol:" + repr(eol), "indent>0" if indent else "",
+         "rendered-earlier-below-an-inline-element" if case.get("prior_inline_parent") and nt else "", "more-than-500-children" if any(r["k"] == "tag" and len(r["kids"]) > 500 for r in roots) else "")
 
 
 def body_shift(case, note):
@@ -109,6 +132,6 @@ RULE = (
 )
 
 CLAUSES = [
-    Clause("model", body_model, strategy=case_strategy, quick=800, thorough=12000, shards_quick=4, required=("list-root-mixed", "indent>0", "blank-leaf", "same-object-twice"), rule="block with block and non-block children"),
+    Clause("model", body_model, strategy=case_strategy, quick=800, thorough=12000, shards_quick=4, required=("list-root-mixed", "indent>0", "blank-leaf", "same-object-twice", "rendered-earlier-below-an-inline-element", "more-than-500-children"), rule="block with block and non-block children"),
     Clause("shift", body_shift, strategy=case_strategy, quick=400, thorough=6000, shards_quick=2, rule=">=3 lines, indent>0"),
 ]
